@@ -591,8 +591,20 @@ void SharedApi() {
 
 }  // namespace probe
 
+namespace probe {
+void SubmitFunctors() {
+  yaclib::Submit(Exe(), [] {
+  });
+  int captured = 1;
+  yaclib::Submit(Exe(), [captured]() mutable {
+    ++captured;
+  });
+}
+}  // namespace probe
+
 extern "C" void probe_async_all() {
   using namespace probe;
+  SubmitFunctors();
   for (int how = 0; how < 11; ++how) {
     ConsumerKinds<void, StopError>(how);
     ConsumerKinds<int, StopError>(how);
